@@ -118,8 +118,7 @@ def convert_cases(res, drv, rng, tier, d):
                         length_type=rng.choice(["size_t", "size_t", "unsigned int"]), length_name=rng.choice(["key_len", "n"]),
                         columns_count=rng.choice([1, 2, 7, 8, 16, 64, 200]), indentation_count=rng.choice([0, 1, 4, 8]), indentation_tab=rng.random() < 0.3,
                         no_length=rng.random() < 0.2, no_const=rng.random() < 0.3)
-            if os.path.exists(outp):
-                os.unlink(outp)
+            common.make_stale(outp)
             try:
                 cmd_convert.main(input_file=inp, output_file=outp, header_file=hdrp if header or rng.random() < 0.5 else "",
                                  footer_file=ftrp if footer or rng.random() < 0.5 else "", **opts)
